@@ -57,7 +57,10 @@ LEVEL_TEXT = ('Runtime monitoring: seeded histories of structural operations on 
 LEVEL_NOTE = 'Trusted: CPython, vp.gens.rtdoc layout bookkeeping, the list model of the reorder semantics (written from the docstrings).'
 TECHNIQUE = 'runtime monitoring: operation history vs whole-field list reference model with unique ids (deciding) + representation-invariant hooks K1-K6'
 
-SORT_KEYS = {'lower': lambda n: n.lower(), 'len-lower': lambda n: (len(n), n.lower()), 'rev': lambda n: [-ord(c) for c in n.lower()]}
+SORT_KEYS = {'lower': lambda n: n.lower(), 'len-lower': lambda n: (len(n), n.lower()), 'rev': lambda n: [-ord(c) for c in n.lower()],
+             # keys that TIE different names: the sort must be stable ("same semantics as for sorted")
+             'pkg-first': lambda n: 0 if n.lower() in ('package', 'source') else 1, 'len': len,
+             'first-letter': lambda n: n[0].lower(), 'constant': lambda n: 0}
 
 
 def ftext(f):
@@ -121,7 +124,7 @@ def cases(ctx):
             elif k < .56:
                 ops.append(['order_after', pi, gen_key(r, nm, isdup), gen_key(r, nm, isdup)])
             elif k < .64:
-                ops.append(['sort', pi, r.choice(['default', 'lower', 'len-lower', 'rev'])])
+                ops.append(['sort', pi, r.choice(['default', 'lower', 'len-lower', 'rev', 'pkg-first', 'len', 'first-letter', 'constant'])])
             elif k < .73:
                 key = gen_key(r, nm, isdup) if r.random() < .7 else r.choice(['Brand-New', 'x-new'])
                 ops.append(['set', pi, key, ids.next('sv') + ('\n ' + ids.next('sv') if r.random() < .3 else '')])
